@@ -432,78 +432,173 @@ def ruleTimeDuration (t : Time) (n : Int) (u : DUnit) : R := do
       else return none
 
 /-! ### dispatcher: `(rule name, argument values) ↦ production` -/
-def applyRaw (name : String) (ts : Ts) (args : List Val) : R :=
-  match name, args with
-  | "ruleAbsorbOnTime", [.tok _, .time t] => pure (some (.time t))
-  | "ruleAbsorbFromInterval", [.tok _, .interval f t] => pure (some (.interval f t))
-  | "ruleNamedDOW", [.tok k] => ruleNamedDOW k
-  | "ruleNamedMonth", [.tok k] => ruleNamedMonth k
-  | "ruleNamedHour", [.tok k] => ruleNamedHour k
-  | "ruleMidnight", [.tok _] => ruleMidnight
-  | "ruleEarlyLatePOD", [.tok k, .time p] => ruleEarlyLatePOD k p
-  | "rulePOD", [.tok k] => rulePOD k
-  | "ruleDOM1", [.tok k] => ruleDOM1 k
-  | "ruleMonthOrdinal", [.tok k] => ruleMonthOrdinal k
-  | "ruleDOM2", [.tok k] => ruleDOM2 k
-  | "ruleYear", [.tok k] => ruleYear ts k
-  | "ruleToday", [.tok _] => ruleToday ts
-  | "ruleNow", [.tok _] => ruleNow ts
-  | "ruleTomorrow", [.tok _] => ruleTomorrow ts
-  | "ruleAfterTomorrow", [.tok _] => ruleAfterTomorrow ts
-  | "ruleYesterday", [.tok _] => ruleYesterday ts
-  | "ruleBeforeYesterday", [.tok _] => ruleBeforeYesterday ts
-  | "ruleEOM", [.tok _] => ruleEOM ts
-  | "ruleEOY", [.tok _] => ruleEOY ts
-  | "ruleDOMMonth", [.time a, .time b] => ruleDOMMonth a b
-  | "ruleDOMMonth2", [.time a, .tok _, .time b] => ruleDOMMonth a b
-  | "ruleMonthDOM", [.time a, .time b] => ruleMonthDOM a b
-  | "ruleAtDOW", [.tok _, .time d] => ruleAtDOW ts d
-  | "ruleNextDOW", [.tok _, .time d] => ruleNextDOW ts d
-  | "ruleDOWNextWeek", [.time d, .tok _] => ruleNextDOW ts d
-  | "ruleDOYYear", [.time a, .time b] => ruleDOYYear a b
-  | "ruleDOWPOD", [.time a, .time b] => ruleDOWPOD a b
-  | "ruleDOWDOM", [.time a, .time b] => ruleDOWDOM ts a b
-  | "ruleDOWDate", [.time a, .time b] => ruleDOWDate a b
-  | "ruleDateDOW", [.time a, .time b] => ruleDOWDate b a
-  | "ruleLatentDOM", [.time a] => ruleLatentDOM ts a
-  | "ruleLatentDOW", [.time a] => ruleLatentDOW ts a
-  | "ruleLatentDOY", [.time a] => ruleLatentDOY ts a
-  | "ruleLatentPOD", [.time a] => ruleLatentPOD ts a
-  | "ruleDDMM", [.tok k] => ruleDDMM k
-  | "ruleMMDD", [.tok k] => ruleDDMM k
-  | "ruleDDMMYYYY", [.tok k] => ruleDDMMYYYY k
-  | "ruleHHMMmilitary", [.tok k] => ruleHHMMmilitary ts k
-  | "ruleHHMM", [.tok k] => ruleHHMM k
-  | "ruleHHOClock", [.tok k] => ruleHHOClock k
-  | "ruleQuarterBeforeHH", [.tok _, .time t] => ruleQuarterBeforeHH t
-  | "ruleQuarterAfterHH", [.tok _, .time t] => ruleQuarterAfterHH t
-  | "ruleHalfBeforeHH", [.tok _, .time t] => ruleHalfBeforeHH t
-  | "ruleHalfAfterHH", [.tok _, .time t] => ruleHalfAfterHH t
-  | "ruleTODPOD", [.time a, .time b] => ruleTODPOD a b
-  | "rulePODTOD", [.time a, .time b] => ruleTODPOD b a
-  | "ruleDateTOD", [.time a, .time b] => ruleDateTOD a b
-  | "ruleTODDate", [.time a, .time b] => ruleDateTOD b a
-  | "ruleDatePOD", [.time a, .time b] => ruleDatePOD a b
-  | "rulePODDate", [.time a, .time b] => ruleDatePOD b a
-  | "ruleBeforeTime", [.tok k, .time t] => ruleBeforeTime k t
-  | "ruleAfterTime", [.tok k, .time t] => ruleAfterTime k t
-  | "ruleDateDate", [.time a, .tok _, .time b] => ruleDateDate a b
-  | "ruleDOMDate", [.time a, .tok _, .time b] => ruleDOMDate a b
-  | "ruleDateDOM", [.time a, .tok _, .time b] => ruleDateDOM a b
-  | "ruleDOYDate", [.time a, .tok _, .time b] => ruleDOYDate a b
-  | "ruleDateTimeDateTime", [.time a, .tok _, .time b] => ruleDateTimeDateTime a b
-  | "ruleTODTOD", [.time a, .tok _, .time b] => ruleTODTOD a b
-  | "rulePODPOD", [.time a, .tok _, .time b] => rulePODPOD a b
-  | "ruleDateInterval", [.time d, .interval f t] => ruleDateInterval d f t
-  | "rulePODInterval", [.time p, .interval f t] => rulePODInterval p f t
-  | "ruleDigitDuration", [.tok k] => ruleDigitDuration k
-  | "ruleNamedNumberDuration", [.tok k] => ruleNamedNumberDuration k
-  | "ruleDurationHalf", [.tok k] => ruleDurationHalf k
-  | "ruleIntervalConjDuration", [.interval f t, .tok _, .duration n u] => ruleDurationInterval n u f t
-  | "ruleIntervalDuration", [.interval f t, .duration n u] => ruleDurationInterval n u f t
-  | "ruleDurationInterval", [.duration n u, .interval f t] => ruleDurationInterval n u f t
-  | "ruleTimeDuration", [.time t, .tok _, .duration n u] => ruleTimeDuration t n u
+/-- the modelled productions (one constructor per registered rule name) -/
+inductive RuleId where
+  | ruleAbsorbOnTime | ruleAbsorbFromInterval | ruleNamedDOW | ruleNamedMonth | ruleNamedHour | ruleMidnight
+  | ruleEarlyLatePOD | rulePOD | ruleDOM1 | ruleMonthOrdinal | ruleDOM2 | ruleYear
+  | ruleToday | ruleNow | ruleTomorrow | ruleAfterTomorrow | ruleYesterday | ruleBeforeYesterday
+  | ruleEOM | ruleEOY | ruleDOMMonth | ruleDOMMonth2 | ruleMonthDOM | ruleAtDOW
+  | ruleNextDOW | ruleDOWNextWeek | ruleDOYYear | ruleDOWPOD | ruleDOWDOM | ruleDOWDate
+  | ruleDateDOW | ruleLatentDOM | ruleLatentDOW | ruleLatentDOY | ruleLatentPOD | ruleDDMM
+  | ruleMMDD | ruleDDMMYYYY | ruleHHMMmilitary | ruleHHMM | ruleHHOClock | ruleQuarterBeforeHH
+  | ruleQuarterAfterHH | ruleHalfBeforeHH | ruleHalfAfterHH | ruleTODPOD | rulePODTOD | ruleDateTOD
+  | ruleTODDate | ruleDatePOD | rulePODDate | ruleBeforeTime | ruleAfterTime | ruleDateDate
+  | ruleDOMDate | ruleDateDOM | ruleDOYDate | ruleDateTimeDateTime | ruleTODTOD | rulePODPOD
+  | ruleDateInterval | rulePODInterval | ruleDigitDuration | ruleNamedNumberDuration | ruleDurationHalf | ruleIntervalConjDuration
+  | ruleIntervalDuration | ruleDurationInterval | ruleTimeDuration
+  deriving DecidableEq, Repr
+
+def RuleId.all : List (String × RuleId) := [
+  ("ruleAbsorbOnTime", .ruleAbsorbOnTime),
+  ("ruleAbsorbFromInterval", .ruleAbsorbFromInterval),
+  ("ruleNamedDOW", .ruleNamedDOW),
+  ("ruleNamedMonth", .ruleNamedMonth),
+  ("ruleNamedHour", .ruleNamedHour),
+  ("ruleMidnight", .ruleMidnight),
+  ("ruleEarlyLatePOD", .ruleEarlyLatePOD),
+  ("rulePOD", .rulePOD),
+  ("ruleDOM1", .ruleDOM1),
+  ("ruleMonthOrdinal", .ruleMonthOrdinal),
+  ("ruleDOM2", .ruleDOM2),
+  ("ruleYear", .ruleYear),
+  ("ruleToday", .ruleToday),
+  ("ruleNow", .ruleNow),
+  ("ruleTomorrow", .ruleTomorrow),
+  ("ruleAfterTomorrow", .ruleAfterTomorrow),
+  ("ruleYesterday", .ruleYesterday),
+  ("ruleBeforeYesterday", .ruleBeforeYesterday),
+  ("ruleEOM", .ruleEOM),
+  ("ruleEOY", .ruleEOY),
+  ("ruleDOMMonth", .ruleDOMMonth),
+  ("ruleDOMMonth2", .ruleDOMMonth2),
+  ("ruleMonthDOM", .ruleMonthDOM),
+  ("ruleAtDOW", .ruleAtDOW),
+  ("ruleNextDOW", .ruleNextDOW),
+  ("ruleDOWNextWeek", .ruleDOWNextWeek),
+  ("ruleDOYYear", .ruleDOYYear),
+  ("ruleDOWPOD", .ruleDOWPOD),
+  ("ruleDOWDOM", .ruleDOWDOM),
+  ("ruleDOWDate", .ruleDOWDate),
+  ("ruleDateDOW", .ruleDateDOW),
+  ("ruleLatentDOM", .ruleLatentDOM),
+  ("ruleLatentDOW", .ruleLatentDOW),
+  ("ruleLatentDOY", .ruleLatentDOY),
+  ("ruleLatentPOD", .ruleLatentPOD),
+  ("ruleDDMM", .ruleDDMM),
+  ("ruleMMDD", .ruleMMDD),
+  ("ruleDDMMYYYY", .ruleDDMMYYYY),
+  ("ruleHHMMmilitary", .ruleHHMMmilitary),
+  ("ruleHHMM", .ruleHHMM),
+  ("ruleHHOClock", .ruleHHOClock),
+  ("ruleQuarterBeforeHH", .ruleQuarterBeforeHH),
+  ("ruleQuarterAfterHH", .ruleQuarterAfterHH),
+  ("ruleHalfBeforeHH", .ruleHalfBeforeHH),
+  ("ruleHalfAfterHH", .ruleHalfAfterHH),
+  ("ruleTODPOD", .ruleTODPOD),
+  ("rulePODTOD", .rulePODTOD),
+  ("ruleDateTOD", .ruleDateTOD),
+  ("ruleTODDate", .ruleTODDate),
+  ("ruleDatePOD", .ruleDatePOD),
+  ("rulePODDate", .rulePODDate),
+  ("ruleBeforeTime", .ruleBeforeTime),
+  ("ruleAfterTime", .ruleAfterTime),
+  ("ruleDateDate", .ruleDateDate),
+  ("ruleDOMDate", .ruleDOMDate),
+  ("ruleDateDOM", .ruleDateDOM),
+  ("ruleDOYDate", .ruleDOYDate),
+  ("ruleDateTimeDateTime", .ruleDateTimeDateTime),
+  ("ruleTODTOD", .ruleTODTOD),
+  ("rulePODPOD", .rulePODPOD),
+  ("ruleDateInterval", .ruleDateInterval),
+  ("rulePODInterval", .rulePODInterval),
+  ("ruleDigitDuration", .ruleDigitDuration),
+  ("ruleNamedNumberDuration", .ruleNamedNumberDuration),
+  ("ruleDurationHalf", .ruleDurationHalf),
+  ("ruleIntervalConjDuration", .ruleIntervalConjDuration),
+  ("ruleIntervalDuration", .ruleIntervalDuration),
+  ("ruleDurationInterval", .ruleDurationInterval),
+  ("ruleTimeDuration", .ruleTimeDuration)
+]
+
+def RuleId.ofName (name : String) : Option RuleId := (RuleId.all.find? (·.1 == name)).map (·.2)
+
+def applyId (r : RuleId) (ts : Ts) (args : List Val) : R :=
+  match r, args with
+  | .ruleAbsorbOnTime, [.tok _, .time t] => pure (some (.time t))
+  | .ruleAbsorbFromInterval, [.tok _, .interval f t] => pure (some (.interval f t))
+  | .ruleNamedDOW, [.tok k] => ruleNamedDOW k
+  | .ruleNamedMonth, [.tok k] => ruleNamedMonth k
+  | .ruleNamedHour, [.tok k] => ruleNamedHour k
+  | .ruleMidnight, [.tok _] => ruleMidnight
+  | .ruleEarlyLatePOD, [.tok k, .time p] => ruleEarlyLatePOD k p
+  | .rulePOD, [.tok k] => rulePOD k
+  | .ruleDOM1, [.tok k] => ruleDOM1 k
+  | .ruleMonthOrdinal, [.tok k] => ruleMonthOrdinal k
+  | .ruleDOM2, [.tok k] => ruleDOM2 k
+  | .ruleYear, [.tok k] => ruleYear ts k
+  | .ruleToday, [.tok _] => ruleToday ts
+  | .ruleNow, [.tok _] => ruleNow ts
+  | .ruleTomorrow, [.tok _] => ruleTomorrow ts
+  | .ruleAfterTomorrow, [.tok _] => ruleAfterTomorrow ts
+  | .ruleYesterday, [.tok _] => ruleYesterday ts
+  | .ruleBeforeYesterday, [.tok _] => ruleBeforeYesterday ts
+  | .ruleEOM, [.tok _] => ruleEOM ts
+  | .ruleEOY, [.tok _] => ruleEOY ts
+  | .ruleDOMMonth, [.time a, .time b] => ruleDOMMonth a b
+  | .ruleDOMMonth2, [.time a, .tok _, .time b] => ruleDOMMonth a b
+  | .ruleMonthDOM, [.time a, .time b] => ruleMonthDOM a b
+  | .ruleAtDOW, [.tok _, .time d] => ruleAtDOW ts d
+  | .ruleNextDOW, [.tok _, .time d] => ruleNextDOW ts d
+  | .ruleDOWNextWeek, [.time d, .tok _] => ruleNextDOW ts d
+  | .ruleDOYYear, [.time a, .time b] => ruleDOYYear a b
+  | .ruleDOWPOD, [.time a, .time b] => ruleDOWPOD a b
+  | .ruleDOWDOM, [.time a, .time b] => ruleDOWDOM ts a b
+  | .ruleDOWDate, [.time a, .time b] => ruleDOWDate a b
+  | .ruleDateDOW, [.time a, .time b] => ruleDOWDate b a
+  | .ruleLatentDOM, [.time a] => ruleLatentDOM ts a
+  | .ruleLatentDOW, [.time a] => ruleLatentDOW ts a
+  | .ruleLatentDOY, [.time a] => ruleLatentDOY ts a
+  | .ruleLatentPOD, [.time a] => ruleLatentPOD ts a
+  | .ruleDDMM, [.tok k] => ruleDDMM k
+  | .ruleMMDD, [.tok k] => ruleDDMM k
+  | .ruleDDMMYYYY, [.tok k] => ruleDDMMYYYY k
+  | .ruleHHMMmilitary, [.tok k] => ruleHHMMmilitary ts k
+  | .ruleHHMM, [.tok k] => ruleHHMM k
+  | .ruleHHOClock, [.tok k] => ruleHHOClock k
+  | .ruleQuarterBeforeHH, [.tok _, .time t] => ruleQuarterBeforeHH t
+  | .ruleQuarterAfterHH, [.tok _, .time t] => ruleQuarterAfterHH t
+  | .ruleHalfBeforeHH, [.tok _, .time t] => ruleHalfBeforeHH t
+  | .ruleHalfAfterHH, [.tok _, .time t] => ruleHalfAfterHH t
+  | .ruleTODPOD, [.time a, .time b] => ruleTODPOD a b
+  | .rulePODTOD, [.time a, .time b] => ruleTODPOD b a
+  | .ruleDateTOD, [.time a, .time b] => ruleDateTOD a b
+  | .ruleTODDate, [.time a, .time b] => ruleDateTOD b a
+  | .ruleDatePOD, [.time a, .time b] => ruleDatePOD a b
+  | .rulePODDate, [.time a, .time b] => ruleDatePOD b a
+  | .ruleBeforeTime, [.tok k, .time t] => ruleBeforeTime k t
+  | .ruleAfterTime, [.tok k, .time t] => ruleAfterTime k t
+  | .ruleDateDate, [.time a, .tok _, .time b] => ruleDateDate a b
+  | .ruleDOMDate, [.time a, .tok _, .time b] => ruleDOMDate a b
+  | .ruleDateDOM, [.time a, .tok _, .time b] => ruleDateDOM a b
+  | .ruleDOYDate, [.time a, .tok _, .time b] => ruleDOYDate a b
+  | .ruleDateTimeDateTime, [.time a, .tok _, .time b] => ruleDateTimeDateTime a b
+  | .ruleTODTOD, [.time a, .tok _, .time b] => ruleTODTOD a b
+  | .rulePODPOD, [.time a, .tok _, .time b] => rulePODPOD a b
+  | .ruleDateInterval, [.time d, .interval f t] => ruleDateInterval d f t
+  | .rulePODInterval, [.time p, .interval f t] => rulePODInterval p f t
+  | .ruleDigitDuration, [.tok k] => ruleDigitDuration k
+  | .ruleNamedNumberDuration, [.tok k] => ruleNamedNumberDuration k
+  | .ruleDurationHalf, [.tok k] => ruleDurationHalf k
+  | .ruleIntervalConjDuration, [.interval f t, .tok _, .duration n u] => ruleDurationInterval n u f t
+  | .ruleIntervalDuration, [.interval f t, .duration n u] => ruleDurationInterval n u f t
+  | .ruleDurationInterval, [.duration n u, .interval f t] => ruleDurationInterval n u f t
+  | .ruleTimeDuration, [.time t, .tok _, .duration n u] => ruleTimeDuration t n u
   | _, _ => throw .unmodelled
+
+def applyRaw (name : String) (ts : Ts) (args : List Val) : R :=
+  match RuleId.ofName name with
+  | some r => applyId r ts args
+  | none => throw .unmodelled
 
 /-- `_is_valid_calendar` of the rule wrapper -/
 def timeCalOk (t : Time) : Bool :=
@@ -528,10 +623,13 @@ def applyRule (name : String) (ts : Ts) (args : List Art) : Except PyErr (Option
     | _, _ => throw .indexError
 
 /-! ### latent post-processing (`postprocess_latent.py`, repaired) -/
+/-- hour and minute accepted by `relativedelta(hour=, minute=)` / `datetime.replace` -/
+def inDay (h mi : Int) : Bool := 0 ≤ h && h ≤ 23 && 0 ≤ mi && mi ≤ 59
+
 def latentTod (ts : Ts) (tod : Time) : Except PyErr Time := do
   let h ← need tod.hour
   let mi := tod.minute.getD 0         -- `tod.minute or 0`
-  if !(0 ≤ h && h ≤ 23 && 0 ≤ mi && mi ≤ 59) then throw .valueError
+  if !(inDay h mi) then throw .valueError
   let d := if h * 60 + mi ≤ ts.h * 60 + ts.mi then ts.date.addDays 1 else ts.date
   let d ← dateOk d
   pure { year := some d.y, month := some d.m, day := some d.d, hour := some h, minute := some mi }
@@ -539,7 +637,7 @@ def latentTod (ts : Ts) (tod : Time) : Except PyErr Time := do
 def latentInterval (ts : Ts) (a b : Time) : Except PyErr Val := do
   let h1 ← need a.hour; let m1 := a.minute.getD 0
   let h2 ← need b.hour; let m2 := b.minute.getD 0
-  if !(0 ≤ h1 && h1 ≤ 23 && 0 ≤ m1 && m1 ≤ 59 && 0 ≤ h2 && h2 ≤ 23 && 0 ≤ m2 && m2 ≤ 59) then throw .valueError
+  if !(inDay h1 m1 && inDay h2 m2) then throw .valueError
   let now := ts.h * 60 + ts.mi
   let shift : Int := if h1 * 60 + m1 ≤ now then 1 else 0
   let dFrom := ts.date.addDays shift
